@@ -282,6 +282,11 @@ def run(ck, prog, ctx):
             only_consts = e[0] == "c" or (not unknowns(e) and _symbols(e) and all(x.startswith("const:") for x in _symbols(e)))
             if not only_consts and not (kind == "call" and d.callee.method == "from_residual"):
                 rets.append((d.line, e))
+        # the constant answers (no annotation at all / none for this term) are 0, the documented information content of `nothing known`
+        for kind, pos, d in pv.defs(calc).get(0, []):
+            if kind == "assign" and d.rv["k"] == "agg" and d.rv.get("variant") == "Ok" and d.rv["ops"] and d.rv["ops"][0].kind == "const" and d.rv["ops"][0].float_value() is not None:
+                fv_ = d.rv["ops"][0].float_value()
+                ck.ob("FORMULA", "calculate/zero-case@%d" % pos[0], fv_ == 0.0, "InformationContent::calculate answers the constant %s where it does not compute the logarithm (documented: 0 when total or current is 0)" % fv_, where=calc.where(d.line))
         if not rets:
             ck.ob("FORMULA", "calculate", False, "InformationContent::calculate returns only constants: -ln(current/total) is not computed", where=calc.where())
         for i, (ln_, e) in enumerate(rets):
